@@ -150,10 +150,8 @@ def main(ctx):
         else:
             for p in itertools.product("0123456789", repeat=2 if length >= 6 else 1):
                 jobs.append((length, "".join(p)))
-    mp = multiprocessing.get_context("fork")
-    with mp.Pool(16) as pool:
-        for part in pool.imap_unordered(_sweep_prefix, jobs, chunksize=1):
-            col.merge(part)
+    for part in common.pmap(_sweep_prefix, jobs):
+        col.merge(part)
     col.exhaustive = True
     col.extra["exhaustive_scope"] = f"all digit strings of length 0..{maxlen} ({sum(10**k for k in range(maxlen + 1))} strings)"
     col.samples = [{"kind": "string", "s": "", "ref": ""}, {"kind": "string", "s": "1234", "ref": ref_tbcd("1234")},
